@@ -1,5 +1,5 @@
 """Compare a delivered Snapshot (protobuf) with the reference reading of the frame it claims to describe."""
-from .refmodel import RefGraph, CONTAINERS
+from .refmodel import RefGraph, CONTAINERS, esc
 
 
 class Issue:
@@ -69,13 +69,13 @@ def walk(snapshot, roots, graph, string_limit=None, collection_limit=None, stric
             want = node.text
             if string_limit is not None:
                 cut = len(want) > string_limit
-                if var.value != want[:string_limit]:
+                if var.value != want[:string_limit] and var.value != esc(want[:string_limit]):
                     res.issues.append(Issue("text-mismatch", path, "snapshot %r real %r" % (
                         var.value[:80], want[:80])))
                 if bool(var.truncated) != cut:
                     res.issues.append(Issue("truncated-flag", path, "truncated=%s but real length %d limit %d" % (
                         var.truncated, len(want), string_limit)))
-            elif var.value != want:
+            elif var.value != want and var.value != esc(want):
                 res.issues.append(Issue("text-mismatch", path, "snapshot %r real %r" % (var.value[:80], want[:80])))
         if string_limit is not None and len(var.value) > string_limit:
             res.issues.append(Issue("string-over-limit", path, "len %d > %d" % (len(var.value), string_limit)))
@@ -94,8 +94,9 @@ def walk(snapshot, roots, graph, string_limit=None, collection_limit=None, stric
                 for i, (names, orig, rn) in enumerate(ref_kids):
                     if i in used:
                         continue
-                    if kv is None or (kv.type == rn.tname and (rn.text is None or kv.value == rn.text[:len(kv.value)]
-                                                              or type(rn.obj) in CONTAINERS)):
+                    if kv is None or (kv.type == rn.tname and (
+                            rn.text is None or kv.value in (rn.text, esc(rn.text)) or type(rn.obj) in CONTAINERS
+                            or (kv.truncated and rn.text.startswith(kv.value)))):
                         m = i
                         break
             else:
